@@ -267,6 +267,81 @@ def run(chk):
                         pr, name, r.status, r.code, lost or "with lock state %s instead of %s" % (st, sc.state0)), row)
                     break
         chk.tie("gateway with the sidecar store still running", g.alive(), g.log_tail())
+    # ---- how a version comes to be protected: (a) the bucket's default retention reaches every kind of upload, and stays on the version
+    # when the bucket's rule is changed or removed later; (b) lock headers spelled in other case are refused, or they protect
+    with gw.Site({"iam": True, "versioning": True}, name="c10d") as site:
+        g = site.gateway(gwbin)
+        R = s3c.Client(g.port, "root", "rootsecret")
+        R.req("PATCH", "/create-user", body=b"<Account><Access>usr</Access><Secret>usr-secret</Secret><Role>user</Role><UserID>0</UserID><GroupID>0</GroupID></Account>")
+        U = s3c.Client(g.port, "usr", "usr-secret")
+        RULE = b"<ObjectLockConfiguration><ObjectLockEnabled>Enabled</ObjectLockEnabled><Rule><DefaultRetention><Mode>%s</Mode><Days>%d</Days></DefaultRetention></Rule></ObjectLockConfiguration>"
+        def upload(kind, bk, key, hd=None):
+            hd = dict(hd or {}); path = "/%s/%s" % (bk, key)
+            if kind == "put": return R.req("PUT", path, body=b"data-" + key.encode(), headers=hd)
+            if kind == "copy":
+                R.req("PUT", "/%s/src-%s" % (bk, key), body=b"data-" + key.encode()); hd["x-amz-copy-source"] = "%s/src-%s" % (bk, key)
+                return R.req("PUT", path, headers=hd)
+            r0 = R.req("POST", path, query={"uploads": ""}, headers=hd)
+            if r0.status != 200: return r0
+            uid = r0.xml().findtext("UploadId"); rp = R.req("PUT", path, query={"partNumber": "1", "uploadId": uid}, body=b"data-" + key.encode())
+            return R.req("POST", path, query={"uploadId": uid}, body=("<CompleteMultipartUpload><Part><PartNumber>1</PartNumber><ETag>%s</ETag></Part></CompleteMultipartUpload>" % rp.headers.get("etag", "")).encode())
+        def survives(bk, key, vid, who=None):
+            """the version is still there with its data after a delete by id (without bypass) was attempted"""
+            dv = (who or U).req("DELETE", "/%s/%s" % (bk, key), query={"versionId": vid} if vid else {})
+            gv = R.req("GET", "/%s/%s" % (bk, key), query={"versionId": vid} if vid else {})
+            return dv, gv.status == 200 and gv.body == b"data-" + key.encode()
+        nb = 0
+        for mode in ("GOVERNANCE", "COMPLIANCE"):
+            for after in ("rule-kept", "rule-removed", "rule-replaced-by-shorter"):
+                nb += 1; bk = "dfl%d" % nb
+                ok = R.req("PUT", "/" + bk, headers={"x-amz-bucket-object-lock-enabled": "true"}).status == 200
+                ok &= R.req("PUT", "/" + bk, query={"object-lock": ""}, body=RULE % (mode.encode(), 2)).status == 200
+                ok &= R.req("PUT", "/" + bk, query={"policy": ""}, body=json.dumps({"Statement": [{"Effect": "Allow", "Principal": "usr", "Action": "s3:*", "Resource": ["arn:aws:s3:::" + bk, "arn:aws:s3:::%s/*" % bk]}]}).encode()).status in (200, 204)
+                chk.require(ok, "c10:setup:default-retention", "setting up a bucket with a default retention rule failed")
+                vids = {}
+                for kind in ("put", "copy", "multipart"):
+                    r = upload(kind, bk, "k-" + kind)
+                    vids[kind] = r.headers.get("x-amz-version-id") if r.status == 200 else None
+                    chk.require(r.status == 200, "c10:setup:default-retention", "%s into the default-retention bucket answered %d %s" % (kind, r.status, r.code))
+                if after == "rule-removed":
+                    R.req("PUT", "/" + bk, query={"object-lock": ""}, body=b"<ObjectLockConfiguration><ObjectLockEnabled>Enabled</ObjectLockEnabled></ObjectLockConfiguration>")
+                elif after == "rule-replaced-by-shorter":
+                    R.req("PUT", "/" + bk, query={"object-lock": ""}, body=RULE % (b"GOVERNANCE", 1))
+                for kind in ("put", "copy", "multipart"):
+                    rt = R.req("GET", "/%s/k-%s" % (bk, kind), query={"retention": ""})
+                    got_mode = rt.xml().findtext("Mode") if rt.status == 200 and rt.xml() is not None else None
+                    dv, alive_ = survives(bk, "k-" + kind, vids[kind])
+                    chk.case(("default-retention", mode, after, kind), True); chk.traces += 1
+                    chk.count("default-retention:%s:%s:%s:%s" % (mode, after, kind, "kept" if alive_ else "LOST"))
+                    row = {"bucket_rule": "%s 2 days" % mode, "afterwards": after, "upload": kind, "GetObjectRetention": "%d %s" % (rt.status, got_mode), "delete_by_version_status": dv.status, "delete_code": dv.code, "version_survives": alive_}
+                    rows.append(row)
+                    if not alive_ or got_mode != mode:
+                        chk.fail("c10:default-retention-not-applied:%s" % kind, "a version written by %s into a bucket with the default retention %s/2 days (then: %s) %s" % (
+                            kind, mode, after, "was deleted by its id by a user without the bypass header (%d)" % dv.status if not alive_ else "reports retention mode %r (GetObjectRetention %d)" % (got_mode, rt.status)), row)
+        # (b) header spellings
+        bk = "hdrcase"
+        R.req("PUT", "/" + bk, headers={"x-amz-bucket-object-lock-enabled": "true"})
+        R.req("PUT", "/" + bk, query={"policy": ""}, body=json.dumps({"Statement": [{"Effect": "Allow", "Principal": "usr", "Action": "s3:*", "Resource": ["arn:aws:s3:::" + bk, "arn:aws:s3:::%s/*" % bk]}]}).encode())
+        until = iso(datetime.datetime.utcnow() + datetime.timedelta(days=2))
+        for kind in ("put", "copy", "multipart"):
+            for hname, hval in (("x-amz-object-lock-mode", "compliance"), ("x-amz-object-lock-mode", "Governance"), ("x-amz-object-lock-mode", "COMPLIANCE "), ("x-amz-object-lock-legal-hold", "on"), ("x-amz-object-lock-legal-hold", "On")):
+                key = "hc-%s-%s" % (kind, hval.strip().lower() + str(len(hval)) + hname[-4:])
+                hd = {hname: hval}
+                if hname.endswith("mode"): hd["x-amz-object-lock-retain-until-date"] = until
+                r = upload(kind, bk, key, hd)
+                chk.case(("lock-header-spelling", kind, hname, hval), True); chk.traces += 1
+                chk.count("lock-header-spelling:%s:%s:%d" % (kind, hval.strip(), r.status))
+                if r.status != 200:
+                    continue          # refused: nothing was promised
+                vid = r.headers.get("x-amz-version-id")
+                dv, alive_ = survives(bk, key, vid)
+                dv2, alive2 = survives(bk, key, vid, R) if alive_ else (dv, alive_)
+                row = {"upload": kind, "header": "%s: %r" % (hname, hval), "upload_status": r.status, "delete_by_user": dv.status, "delete_by_root_without_bypass": dv2.status, "version_survives": alive2}
+                rows.append(row)
+                if not alive2:
+                    chk.fail("c10:accepted-lock-header-does-not-protect:%s" % kind, "%s with %s: %r was acknowledged, and the version was then deleted by its id without the bypass header (%d / %d)" % (
+                        kind, hname, hval, dv.status, dv2.status), row)
+        chk.tie("gateway still running (default retention, header spellings)", g.alive(), g.log_tail())
     chk.samples.extend(rows[5:8])
     if built:
         unit_tie(chk)
